@@ -301,6 +301,8 @@ func check(o *runOpts) int {
 		switch gc.Name {
 		case "events-closed":
 			units = append(units, &unitResult{key: "events#closed", vc: checkEventsClosed(prog, gc)})
+		case "template-gate":
+			units = append(units, &unitResult{key: "template#gate", vc: checkTemplateGate(prog, gc, o.repo)})
 		default:
 			vc := newVC(prog, gc.Name)
 			vc.unsupported("contract-stale: unknown global check %s", gc.Name)
@@ -362,7 +364,7 @@ func check(o *runOpts) int {
 	// long time limit (a real failure costs this extra time; at most four obligations are retried)
 	retried := 0
 	for i, ob := range obls {
-		if ob.Cover || ob.Result == nil || ob.Result.Status == "unsat" || ob.Result.Status == "sat" || retried >= 4 {
+		if ob.Cover || ob.Goal == "false" || ob.Result == nil || ob.Result.Status == "unsat" || ob.Result.Status == "sat" || retried >= 4 {
 			continue
 		}
 		retried++
